@@ -188,3 +188,61 @@ CONTRACTS = [EvaluateOperation(), InitializeGrid(), GetTotalNumPoints(), RefineS
 LEMMAS = []
 ASSUMPTIONS = ["configuration of the proof: max_time None, single_step False, evaluation_points None, do_plot False, solutions_storage None, test_scheme False",
                "LogUtility.time_func(msg, fn, *a) calls fn(*a) exactly once and returns its result; log_* / print_* calls have no effect on program state"]
+
+
+# --------------------------------------------------------------------------- the reported error against a reference solution
+from pyvc import prelude as P  # noqa: E402
+from pyvc.values import Inf  # noqa: E402
+
+GO_FILE = "sparseSpACE/GridOperation.py"
+
+
+class GlobalErrorEstimate(Contract):
+    """Integration.get_global_error_estimate for result vectors of length 1..3 and the norms 1, 2, inf: the reported error is the (library-normalised) norm of
+    the ABSOLUTE deviation exactly when the reference solution is the zero vector, and of the component-wise RELATIVE deviation for every other reference --
+    however small its entries are.  The spec is written with its own norm terms (not by re-running the code)."""
+    file, qualname = GO_FILE, "Integration.get_global_error_estimate"
+
+    def __init__(self, n, ordv, tag):
+        self.n, self.ordv = n, ordv
+        self.label = "Integration.get_global_error_estimate[length %d, norm %s]" % (n, tag)
+
+    def inputs(self, S):
+        ref = Seq("array", [S.real("ref%d" % i) for i in range(self.n)])
+        res = Seq("array", [S.real("res%d" % i) for i in range(self.n)])
+        return {"self": Obj("Integration", dict(reference_solution=ref, integral=res)), "refinement_container": None, "norm": self.ordv}
+
+    def pre(self, S, env):
+        ref = env["self"].fields["reference_solution"].items
+        allzero = z3.And(*[r == 0 for r in ref])
+        nonzero = z3.And(*[r != 0 for r in ref])
+        return [("reference-is-zero-or-free-of-zero-components", z3.Or(allzero, nonzero))]
+
+    def spec(self, S, old):
+        ref, res = old["self"].fields["reference_solution"].items, old["self"].fields["integral"].items
+        allzero = z3.And(*[r == 0 for r in ref])
+        n = self.n
+        if isinstance(self.ordv, Inf):
+            scale = z3.RealVal(1)
+        elif self.ordv == 1:
+            scale = z3.RealVal(n)
+        else:
+            scale = P.sqrt_term(S.ex, z3.RealVal(n))
+        absdev = P.norm_term(S.ex, list(res), self.ordv)
+        reldev = P.norm_term(S.ex, [(a - b) / a for a, b in zip(ref, res)], self.ordv)
+        return z3.If(allzero, absdev / scale, reldev / scale)
+
+    def post(self, S, old, env, result):
+        from pyvc import values as Vv
+        return [Cl("absolute-deviation-for-the-zero-reference-relative-deviation-for-every-other-reference", Vv.to_z3(result, True) == self.spec(S, old), prop=True)]
+
+    def model_to_input(self, model):
+        from pyvc import modelparse as mp
+        g = lambda k: mp.tofloat(mp.num(model.get(k, "0")))  # noqa
+        return {"kind": "C13.error_estimate", "n": self.n, "norm": "inf" if isinstance(self.ordv, Inf) else self.ordv,
+                "reference": [g("ref%d" % i) for i in range(self.n)], "result": [g("res%d" % i) for i in range(self.n)]}
+
+
+CONTRACTS += [GlobalErrorEstimate(n, o, t) for n in (1, 2, 3) for o, t in ((1, "1"), (2, "2"), (Inf(1), "inf"))]
+ASSUMPTIONS += ["get_global_error_estimate: vectors of length 1..3 (loop-free), norms 1/2/inf; sqrt is an uninterpreted function with its defining instances; the reference is the "
+                "zero vector or has no zero component (a component-wise relative error is undefined otherwise); the division by len**(1/norm) is the library's normalisation"]
